@@ -363,15 +363,29 @@ pub fn run(ctx: &Ctx) -> i32 {
                     }
                 }
             }
+            // (the linted file also lies in a sub-directory while rva runs one level above it: a relative include is
+            // relative to the including file, not to the working directory)
+            let sub = sc.dir.join("src");
+            let _ = std::fs::create_dir_all(&sub);
+            let _ = std::process::Command::new("mkfifo").arg(sub.join("pipe")).status();
+            let _ = std::os::unix::fs::symlink("/dev/zero", sub.join("zero.s"));
+            let _ = std::fs::create_dir_all(sub.join("dir.s"));
+            let _ = std::os::unix::fs::symlink("nowhere.s", sub.join("dangling.s"));
+            let _ = std::os::unix::fs::symlink("loop_b.s", sub.join("loop_a.s"));
+            let _ = std::os::unix::fs::symlink("loop_a.s", sub.join("loop_b.s"));
+            let mut specials = specials;
+            specials.push(("symlink-to-dev-zero", "zero.s".into()));
             for (what, path) in &specials {
                 let text = format!("main:\n    li a7, 10\n    ecall\n.include \"{path}\"\n");
                 sc.write("main.s", &text);
-                for (b, exe) in [("dev", &ctx.rva_checked), ("release", &ctx.rva_release)] {
-                    let (run, rss) = cli::run_measured(exe, &["lint", "--compact", "--no-color", "--all-files", "main.s"], &sc.dir, 4 * 1024 * 1024, std::time::Duration::from_secs(10));
+                sc.write("src/main.s", &text);
+                let _ = std::os::unix::fs::symlink("/dev/zero", sc.dir.join("zero.s"));
+                for (b, exe, file) in [("dev", &ctx.rva_checked, "main.s"), ("release", &ctx.rva_release, "main.s"), ("dev", &ctx.rva_checked, "src/main.s"), ("release", &ctx.rva_release, "src/main.s")] {
+                    let (run, rss) = cli::run_measured(exe, &["lint", "--compact", "--no-color", "--all-files", file], &sc.dir, 4 * 1024 * 1024, std::time::Duration::from_secs(10));
                     acc.evaluations += 1;
                     acc.count("special_file_includes", 1);
                     acc.note("special_files", what.to_string());
-                    let replay = json!({"class": format!("include-of-{what}"), "build": b, "files": [["main.s", text]], "note": "run in a directory prepared like props/c06.rs does (mkfifo pipe, symlinks)"});
+                    let replay = json!({"class": format!("include-of-{what}"), "build": b, "linted": file, "files": [["main.s", text]], "note": "run in a directory prepared like props/c06.rs does (mkfifo pipe, symlinks; the same under src/)"});
                     if run.timed_out {
                         acc.violation(format!("C06|hang|cli|include-of-{what}"), format!("`rva lint` ({b}) did not finish within 10 s on a {}-byte file that includes {what} (`{}`)", text.len(), path.chars().take(40).collect::<String>()), replay);
                     } else if run.panicked() || run.signal.is_some() || run.code != Some(0) {
